@@ -283,6 +283,10 @@ impl Field {
         //# treated as malformed.
 
         if name[0] != b':' {
+            // `HeaderName::from_lowercase` lets '"' through, which is not a token character
+            if name.contains(&b'"') {
+                return Err(HeaderError::invalid_name(name));
+            }
             return Ok(Field::Header((
                 HeaderName::from_lowercase(name).map_err(|_| HeaderError::invalid_name(name))?,
                 HeaderValue::from_bytes(value.as_ref())
